@@ -38,6 +38,7 @@ KINDS = ["http-abort", "http-400-abort", "refused-continue", "params-raise", "pa
          "prepare-task-raises", "prepare-handler-raises", "worker-dies", "cancel", "timeout-abort", "http-status-abort", "rc-store-raises", "store-down"]
 REQUIRED_FEATURES = {"kind:" + k: 2 for k in KINDS}
 REQUIRED_FEATURES["driver-profiling-on"] = 5
+REQUIRED_FEATURES.update({"exc:params-raise:RuntimeError": 1, "exc:params-raise:NotImplementedError": 1, "exc:prepare-task-raises:two-arg": 1, "exc:prepare-handler-raises:two-arg": 1})
 REQUIRED_FEATURES["own-actor-system:hangs"] = 3
 BUDGET = {"quick": {"cases": 1500, "seconds": 34}, "thorough": {"cases": 40000, "seconds": 700}}
 EXHAUSTIVE_WHOLE = False
@@ -172,7 +173,7 @@ class Injector:
 
             sim.script = script
         elif kind in ("params-raise", "partition-raise", "runner-keyerror", "runner-exception"):
-            c04_gen.FAULT = {"kind": kind, "task": f["task"], "client": f.get("client"), "k": f.get("ordinal")}
+            c04_gen.FAULT = {"kind": kind, "task": f["task"], "client": f.get("client"), "k": f.get("ordinal"), "exc": f.get("exc")}
             del c04_gen.FAULT_FIRED[:]
         elif kind == "store-raises":
             orig = metrics.InMemoryMetricsStore._add
@@ -254,9 +255,9 @@ class Injector:
             def on_prepare_track(prep, track, data_root_dir):
                 if kind == "prepare-handler-raises":
                     me.fired_at = k.clock.now
-                    raise RuntimeError("verif: on_prepare_track failed")
+                    raise (TwoArgError("on_prepare_track", "verif") if f.get("exc") == "two-arg" else RuntimeError("verif: on_prepare_track failed"))
                 PREPARE_TASK_FIRED.append(0)
-                return [(failing_task, {})]
+                return [(failing_task_two_arg if f.get("exc") == "two-arg" else failing_task, {})]
 
             loader.DefaultTrackPreparator.on_prepare_track = on_prepare_track
             self._undo = lambda: setattr(loader.DefaultTrackPreparator, "on_prepare_track", orig)
@@ -316,6 +317,19 @@ PREPARE_TASK_FIRED = []
 def failing_task():
     PREPARE_TASK_FIRED.append(1)
     raise RuntimeError("verif: track preparation task failed")
+
+
+class TwoArgError(Exception):
+    """An exception the way track plugins and client libraries write them: the constructor takes more than the message. An instance pickles, but
+    re-creating it from its args (the one formatted message) fails - an actor message that carries the instance never arrives."""
+
+    def __init__(self, what, why):
+        super().__init__(f"{what}: {why}")
+
+
+def failing_task_two_arg():
+    PREPARE_TASK_FIRED.append(1)
+    raise TwoArgError("track preparation task", "verif: failed")
 
 
 # ------------------------------------------------------------------------------------------------------------ one faulted race
@@ -396,6 +410,8 @@ def points_for(case, base_tr, rng, exhaustive):
                 # retries > 0, recovered by design and no failure at all; the other kinds live in the harness's runner / parameter source
                 continue
             faults.append({"kind": kind, "task": e["task"], "phys_client": e["client"], "client": idx, "ordinal": e["ordinal"]})
+            if kind == "params-raise":
+                faults[-1]["exc"] = ("ValueError", "RuntimeError", "NotImplementedError", "KeyError")[(j + e["ordinal"]) % 4]
             if (j + len(faults)) % 7 == 3:
                 # rally runs on an actor system it started itself and has to shut down afterwards - cleanly, or with a load generator that hangs
                 # and keeps the system alive past the shutdown timeout: the failure of the race must survive that, too
@@ -431,6 +447,10 @@ def points_for(case, base_tr, rng, exhaustive):
         faults.append({"kind": "rc-store-raises", "call": "bulk_add@TaskFinished", "nth": 2})
     faults.append({"kind": "prepare-task-raises"})
     faults.append({"kind": "prepare-handler-raises"})
+    if exhaustive or rng.random() < 0.5:
+        # the same with an exception class whose instances do not survive the trip between two actor processes
+        faults.append({"kind": "prepare-task-raises", "exc": "two-arg"})
+        faults.append({"kind": "prepare-handler-raises", "exc": "two-arg"})
     msg_points = range(1, n_msgs, 3) if exhaustive else [rng.randint(1, max(1, n_msgs - 1)) for _ in range(2)]
     for m in msg_points:
         faults.append({"kind": "worker-dies", "at_message": m})
@@ -497,6 +517,8 @@ def one_fault(ctx, case, fault, origin, base_steps=None):
     problems = []
     tr, inj = run_faulted(ctx, case, fault, problems, base_steps)
     feats = {"kind:" + fault["kind"], "origin:" + origin}
+    if fault.get("exc"):
+        feats.add(f"exc:{fault['kind']}:{fault['exc']}")
     if fault.get("profiling"):
         feats.add("driver-profiling-on")
     if fault.get("own_actor_system"):
